@@ -4,9 +4,9 @@ import SecsModel.Model.GemComm
 /-! Driver domain `gemcomm`.
 
 `gemcomm run <host|equipment> <commackReq> <sysChecked 0|1><commackGate 0|1> <user cbs s.f,s.f|-> <input>,<input>,…`
-inputs: `en dis sel lost t3 dly rx:<s>:<f>:<w>:<sys>:<commack|->`, and `cfg` — the application changes a timer setting: not an
+inputs: `en dis con sel lost t3 dly rx:<s>:<f>:<w>:<sys>:<commack|->`, and `cfg` — the application changes a timer setting: not an
 input of the model (durations are not modelled), answered with the unchanged state and no output
-answer: `ok <step>;<step>;…` with `<step> = <COMM>/<link><t3Armed><delayArmed><waitfor_communicating(0)>/<queued count>:<out>+<out>…`
+answer: `ok <step>;<step>;…` with `<step> = <COMM>/<connected><selected><t3Armed><delayArmed><waitfor_communicating(0)>/<queued count>:<out>+<out>…`
 -/
 namespace SecsModel.Drv.GemComm
 open SecsModel SecsModel.Drv SecsModel.Spec.E30Comm SecsModel.Model.GemComm
@@ -18,6 +18,7 @@ def parseInput (tok : String) : Option (Option Input) :=
   (fun i => some i) <$> match tok.splitOn ":" with
   | ["en"] => some .enable
   | ["dis"] => some .disable
+  | ["con"] => some .linkConnected
   | ["sel"] => some .linkSelected
   | ["lost"] => some .linkLost
   | ["t3"] => some .t3Expired
@@ -44,7 +45,7 @@ def showOutput : Output → String
   | .blocked => "blk"
 
 def showStep (s : State) (o : List Output) : String :=
-  s!"{s.comm.name}/{showBool s.link}{showBool s.t3Armed}{showBool s.delayArmed}{showBool (reportsEstablished s)}/{s.queued.length}:" ++ "+".intercalate (o.map showOutput)
+  s!"{s.comm.name}/{showBool s.connected}{showBool s.selected}{showBool s.t3Armed}{showBool s.delayArmed}{showBool (reportsEstablished s)}/{s.queued.length}:" ++ "+".intercalate (o.map showOutput)
 
 def runShow (cfg : Cfg) : State → List (Option Input) → List String → List String
   | _, [], acc => acc.reverse
